@@ -98,7 +98,7 @@ def stepLine (st : DSt) : List String → DSt × String
   | "cfg" :: h :: _pool :: rest =>
     match h.toNat? with
     | some h => ({ st with hints := if h < 1 then 8 else h, legacy := rest.contains "L",
-                           legacySel := rest.contains "M", closeFd := rest.contains "C" }, "ok")
+                           legacySel := rest.contains "M", closeFd := rest.contains "C" || rest.contains "R" }, "ok")
     | none => (st, "bad-op")
   | ["fd", k] =>
     if st.kinds.length ≥ 16 then (st, "bad-op") else
